@@ -356,14 +356,18 @@ def step2(s, tree_after, extra):
     return t
 
 
-def first_hunk_still_applies(sec):
-    """the inherently ambiguous case: the first hunk's old side is still exactly at its stated place in B"""
+def first_hunk_still_applies(sec, ws=False):
+    """the inherently ambiguous case: the first hunk's old side is still exactly at its stated place in B (under -l: still
+    there as far as a comparison that ignores blanks can tell)"""
     hs = sec["hs"]
     if not hs:
         return True
     h = hs[0]
-    old = [(t, nl) for o, t, nl in h["body"] if o != "+"]
-    b = sec["b"]
+    def nrm(l):
+        t, nl = l
+        return (re.sub(r"[ \t]+", " ", t).rstrip(" "), "L" if nl == "C" else nl) if ws else (t, nl)
+    old = [nrm((t, nl)) for o, t, nl in h["body"] if o != "+"]
+    b = [nrm(l) for l in sec["b"]]
     pos = h["os"] - 1 if h["oc"] else h["os"]
     if not old:
         return True            # a pure insertion always 'fits'
@@ -399,6 +403,17 @@ def history_runs(run_, exe, rng, n, prop):
                     d_ = b"\n".join(ls_)
                 s["tree"][x["path"]] = (k_, m_, d_)
             s["how"] = how
+        if prop == "C06" and rng.random() < 0.25:
+            # the first application lands at an offset: lines were added at the top of the target since the diff was made
+            secs_ = [scen.section(rng, p_, kind="change", fmt=rng.choice(["unified", "context", "git"]), width=rng.choice([2, 3]), nonl=False) for p_ in rng.sample(["o", "od/o"], rng.choice([1, 2]))]
+            s = scen.base_scenario(rng, secs_, opts={"F": 0})      # (-F 0: no second fit of the same hunk by fuzz)
+            for x in secs_:
+                k_, m_, d_ = s["tree"][x["path"]]
+                extra = b"".join(b"top %d\n" % j_ for j_ in range(rng.randint(1, 3)))
+                s["tree"][x["path"]] = (k_, m_, extra + d_)
+                x["b"] = [(l_.decode("latin-1"), "L") for l_ in extra.split(b"\n")[:-1]] + list(x["b"])
+                x["hs"] = [dict(h_, os=h_["os"] + extra.count(b"\n"), ns=h_["ns"] + extra.count(b"\n")) for h_ in x["hs"]]
+            s["how"] = "offset"
         if prop == "C05" and rng.random() < 0.15:
             s = scen.dir_stream_scenario(rng)
         if prop == "C05" and rng.random() < 0.25:
@@ -411,7 +426,8 @@ def history_runs(run_, exe, rng, n, prop):
         base.append(s)
     r1, b1, m1 = l2_family(run_, exe, base, lambda s, r: None, cls=lambda s, r: "first run exit %d" % r["exit"], label=prop)
     mism += m1
-    variants = [("R", {"R": 1})] if prop == "C05" else [("N", {"N": 1}), ("t", {"t": 1}), ("f", {"f": 1})]
+    # (-N together with -t: -N decides, the patch is skipped)
+    variants = [("R", {"R": 1})] if prop == "C05" else [("N", {"N": 1}), ("t", {"t": 1}), ("f", {"f": 1}), ("N", {"N": 1, "t": 1})]
     for name, extra in variants:
         second, idx = [], []
         for i, (s, r) in enumerate(zip(base, r1)):
@@ -431,7 +447,13 @@ def history_runs(run_, exe, rng, n, prop):
             after2 = tree_no_meta(r["tree"])
             rep = dict(scenario=describe(s), second_run=dict(argv=l2.opts_to_argv(t["opts"]), exit=r["exit"], stdout=r["stdout"].decode("latin-1")[-1200:],
                                                              stderr=r["stderr"].decode("latin-1")[-400:], tree=fmt_tree(r["tree"])))
-            ambiguous = any(first_hunk_still_applies(x) for x in s["secs"]) or any(x["kind"] in ("add", "delete") for x in s["secs"])
+            ambiguous = any(first_hunk_still_applies(x, ws=bool(s["opts"].get("l"))) for x in s["secs"]) or any(x["kind"] in ("add", "delete") for x in s["secs"])
+            if s.get("how") == "offset":
+                # the reversed hunk is found at an offset, not perfectly: a forward fit anywhere in the file is as good a reading
+                def occurs(x):
+                    h_ = x["hs"][0]; old_ = [(t_, n_) for o_, t_, n_ in h_["body"] if o_ != "+"]
+                    return not old_ or any(x["b"][k_:k_ + len(old_)] == old_ for k_ in range(len(x["b"]) - len(old_) + 1))
+                ambiguous = ambiguous or any(occurs(x) for x in s["secs"])
             # a first run that needed fuzz leaves a file in which the hunk may well fit again with fuzz: nothing is claimed
             # (the runs are still compared with the model)
             if s.get("how") == "F3" and name != "f":
@@ -595,6 +617,51 @@ def run(prop, tier, seed):
             scns += rs
             _, b2, m2 = l2_family(run_, exe, scns, judge_c04, cls=lambda s, r: "exit %d" % r["exit"])
             bad += b2; mism += m2
+            # a partly applied patch (its first hunk is in the target already, later ones are not) run with -N: skipped as a whole,
+            # EVERY hunk reported as ignored and saved as a reject, the target untouched
+            part = []
+            for _ in range(n // 5):
+                while True:
+                    sec = scen.section(rng, rng.choice(["pa", "pd/pa"]), kind="change", fmt=rng.choice(["unified", "context", "git"]), width=rng.choice([1, 2, 3]), nonl=False)
+                    if len(sec["hs"]) >= 2:
+                        break
+                h0 = sec["hs"][0]; pos = h0["os"] - 1 if h0["oc"] else h0["os"]
+                a_ = list(sec["a"])
+                mid = a_[:pos] + [(t, nl) for o_, t, nl in h0["body"] if o_ != "-"] + a_[pos + h0["oc"]:]
+                s0 = scen.base_scenario(rng, [sec], opts=dict(rng.choice([{"N": 1}, {"N": 1, "rf": "context"}, {"N": 1, "b": 1}])))
+                s0["tree"][sec["path"]] = ("R", 0o644, emit.file_bytes(mid)); s0["mid"] = emit.file_bytes(mid)
+                part.append(s0)
+
+            def judge_part(s, r):
+                out = r["stdout"].decode("latin-1"); sec = s["secs"][0]; after = tree_no_meta(r["tree"])
+                if "Skipping patch" not in out:
+                    return None
+                nh = len(sec["hs"])
+                ign = sum(int(a_) for a_, b_, c_ in SUMMARY_RE.findall(out) if c_ == "ignored")
+                rej = after.get(sec["path"] + ".rej")
+                nrej = count_reject_hunks(rej[2]) if rej else 0
+                if after.get(sec["path"], (0, 0, None))[2] != s["mid"]:
+                    return "a skipped patch changed its target"
+                if ign != nh or nrej != nh:
+                    return "a patch of %d hunks was skipped: %d reported as ignored, %d saved as rejects (every hunk has to be)" % (nh, ign, nrej)
+                return judge_c04(s, r)
+            _, b7, m7 = l2_family(run_, exe, part, judge_part, cls=lambda s, r: "partly applied -N exit %d" % r["exit"])
+            bad += b7; mism += m7
+            # a reject / output file on a device that takes no data (/dev/full): the failed write has to end the run with status 2
+            full = []
+            for _ in range(max(6, n // 30)):
+                sec = scen.section(rng, "ff", kind="change", fmt=rng.choice(["unified", "context"]), nonl=False)
+                how = rng.choice(["r", "r", "o"])
+                s0 = scen.base_scenario(rng, [sec], opts=({"r": "/dev/full", "f": 1} if how == "r" else {"o": "/dev/full"}))
+                if how == "r":
+                    s0["tree"]["ff"] = ("R", 0o644, b"nothing of the patch matches here\n")
+                full.append(s0)
+            def judge_full(s, r):
+                if r["exit"] != 2 or not r["stderr"].strip():
+                    return "the write to /dev/full failed (ENOSPC) and the run ends with exit status %d%s" % (r["exit"], "" if r["stderr"].strip() else " without a diagnostic")
+                return None
+            _, b8, _ = l2_family(run_, exe, full, judge_full, cls=lambda s, r: "/dev/full exit %d" % r["exit"], compare=False)
+            bad += b8
         elif prop == "C15":
             scns = scenarios_for(prop, rng, n)
             res, b2, m2 = l2_family(run_, exe, scns, judge_dry, cls=lambda s, r: "dry exit %d" % r["exit"], with_mtime=True)
